@@ -110,6 +110,10 @@ def day_job(job):
             ys = [float(piecewise_polynomial(np.float64(x), thresholds=p["thresholds"], rates=p["rates"], intercepts_at_lower_thresholds=p["intercepts_at_lower_thresholds"])) for x in xs]
             events.append({"k": "eval", "param": f"{g}.{k}", "xs": [dec(x) for x in xs], "ys": [dec(y) for y in ys]})
             meta.append({"param": f"{g}.{k}", "date": iso, "what": "piecewise_polynomial", "xs": xs[:6]})
+            for m_ in (0.75, 0.4):
+                ysm = [float(piecewise_polynomial(np.float64(x), thresholds=p["thresholds"], rates=p["rates"], intercepts_at_lower_thresholds=p["intercepts_at_lower_thresholds"], rates_multiplier=m_)) for x in xs]
+                events.append({"k": "evalm", "param": f"{g}.{k}", "m": dec(m_), "xs": [dec(x) for x in xs], "ys": [dec(y) for y in ysm]})
+                meta.append({"param": f"{g}.{k}", "date": iso, "what": f"piecewise_polynomial rates_multiplier={m_}", "xs": xs[:6]})
             # values derived from a schedule at set-up time (policy_environment._parse_einführungsfaktor…,
             # _parse_vorsorgepauschale_rentenv_anteil): the environment must hold Eval(schedule, year)
             if full_env and d.year >= 2005 and g == "eink_st_abzuege" and k in ("einführungsfaktor", "vorsorgepauschale_rentenv_anteil"):
